@@ -505,24 +505,33 @@ Definition exec0 (i : nat) (th : tst) (r : rst) : option rst :=
           | None => None
           end
         else
-          (* the manager delivers an event: du_state update, then ds_pending_data; the event takes effect at the latter *)
-          if (uold =? -1) || src_du_is (g_s g) uold then fin r rest 0 (fun x => set_u x v) else None
+          (* the manager delivers an event, first half: the du_state update *)
+          let '(w, a, nd) := du_bits v in
+          if (uold =? -1) || src_du_is (g_s g) uold then
+            match perform r t (if nd then GHangup else GEvent a) with
+            | Some (r1, _) => if src_du_is (g_s (r_g r1)) v then fin r1 rest 0 same else None
+            | None => None
+            end
+          else None
     | RWp p =>
         if is_owner_t g t then
           owner_obs
         else if p =? 0 then None
         else if t_mgr th then
-          if t_u th =? -1 then
-            match perform r t (GEvent (karm (g_s g))) with
-            | Some (r1, _) => if pending (g_s (r_g r1)) then fin r1 rest 0 same else None
-            | None => None
-            end
-          else
-            let '(w, a, nd) := du_bits (t_u th) in
-            match perform r t (if nd then GHangup else GEvent a) with
-            | Some (r1, _) => if src_du_is (g_s (r_g r1)) (t_u th) && pending (g_s (r_g r1)) then fin r1 rest 0 (fun x => set_u x (-1)) else None
-            | None => None
-            end
+          (* second half of a delivery: ds_pending_data, _dispatch_source_merge_evt; a delivery that does not touch du_state
+             (signal, timer that stays armed) is both halves here *)
+          let r0 := if m_hup g then Some r
+                    else match perform r t (GEvent (karm (g_s g))) with
+                         | Some (r1, _) => if flags_eqb (fl (g_s (r_g r1))) (fl (g_s g)) && Bool.eqb (du_armed (g_s (r_g r1))) (du_armed (g_s g)) then Some r1 else None
+                         | None => None
+                         end in
+          match r0 with
+          | Some r0 => match perform r0 t GEvMerge with
+                       | Some (r1, acts) => match acts with [] => if pending (g_s (r_g r1)) then fin r1 rest 0 same else None | _ => None end
+                       | None => None
+                       end
+          | None => None
+          end
         else match perform r t GMergeData with Some (r1, _) => fin r1 rest 0 same | None => None end
     | RXp _ | RXh _ _ =>
         if is_owner_t g t || (t_api th =? 0) then
@@ -531,14 +540,7 @@ Definition exec0 (i : nat) (th : tst) (r : rst) : option rst :=
     end
   end.
 
-(* the manager's next observation after a hang-up: _dispatch_source_merge_evt has run (second half of the delivery) *)
-Definition exec (i : nat) (th : tst) (r : rst) : option rst :=
-  if t_mgr th && m_hup (r_g r) then
-    match perform r (t_id th) GHangupMerge with
-    | Some (r1, acts) => match acts with [] => exec0 i th r1 | _ => None end
-    | None => None
-    end
-  else exec0 i th r.
+Definition exec := exec0.
 
 (* follow the order: one entry = one observation of that thread (entries already consumed ahead are credited) *)
 Definition at_anchor (i : nat) (th : tst) (r : rst) : option rst :=
@@ -584,9 +586,9 @@ Definition sinv_b (k : kind) (s : src) : bool :=
   implb' (kreg s) (du_wlh s) && implb' (du_armed s || du_nd s) (du_wlh s) && implb' (du_wlh s) (installed s) &&
   implb' (du_nd s) (kreg s) && implb' (k_timer k) (negb (du_nd s)) && implb' (karm s) (kreg s).
 Definition hinv_b (g : gst) : bool :=
-  implb' (m_hup g) (registered (g_s g) && negb (k_direct (g_k g)) && negb (k_timer (g_k g)) &&
-                    match owner g with Some _ => negb (queue_eqb (o_q g) QMgr) | None => true end) &&
-  implb' (in_cd (o_pc g)) (k_direct (g_k g)).
+  implb' (m_hup g) (match owner g with Some _ => negb (queue_eqb (o_q g) QMgr) | None => true end &&
+                    (k_timer (g_k g) || (registered (g_s g) && negb (k_direct (g_k g))))) &&
+  implb' (in_cd (o_pc g)) (k_direct (g_k g)) && implb' (m_hup g) (activated g).
 Definition opt_is_none {A} (o : option A) : bool := match o with None => true | Some _ => false end.
 Definition opc_is (p q : opc) : bool :=
   match p, q with OIdle, OIdle | OLatch, OLatch | OP3, OP3 => true | _, _ => false end.
@@ -603,7 +605,7 @@ Definition ginv_b (g : gst) : bool :=
   implb' (negb (h_ca s) && ch_set g) ((ch_count g =? 1) || ch_disposed g) &&
   implb' (negb (ch_set g)) (negb (h_ca s) && (ch_count g =? 0)) &&
   implb' (1 <=? ch_count g) (canceled f && deleted f) &&
-  implb' (ch_disposed g) (released f) &&
+  implb' (ch_disposed g) (released f && negb (canceled f)) &&
   (0 <=? late_starts g) && (late_starts g <=? 1) &&
   implb' (1 <=? late_starts g) (canceled f && origin_thread (origin g)) &&
   implb' (opc_is (o_pc g) OLatch)
@@ -630,15 +632,25 @@ Definition inv_b (tids : list Z) (g : gst) : bool := ginv_b g && hinv_b g && for
     handler slots e c r; du bits w a n; kreg; pending; owner is None; every cancel_and_wait caller idle; ch_count;
     eh_count; late_starts; inv_b of the final state; number of model acts] *)
 Definition b (x : bool) : Z := if x then 1 else 0.
+Definition replay_run (k : kind) (ev ca rg : bool) (ts : list tst) (ord : list nat) : rst * Z * list nat :=
+  sched ord (mkR (init_state k ev ca rg) ts [] (k_timer k)) 0.
+(* the model acts the scheduler performed, in order (a delivery whose second half the recording ends before is completed) *)
+Definition replay_acts (k : kind) (ev ca rg : bool) (ts : list tst) (ord : list nat) : list (Z * act) :=
+  let r := fst (fst (replay_run k ev ca rg ts ord)) in
+  rev (r_acts r) ++ (if m_hup (r_g r) then [(0, GEvMerge)] else []).
+(* the state the checker judges: those acts run from the initial state by SrcLife.grun *)
+Definition replay_state (k : kind) (ev ca rg : bool) (ts : list tst) (ord : list nat) : option gst :=
+  grun (init_state k ev ca rg) (replay_acts k ev ca rg ts ord).
+
 Definition replay (k : kind) (ev ca rg : bool) (ts : list tst) (ord : list nat) : list Z :=
   let g0 := init_state k ev ca rg in
-  let '(r, done, rest) := sched ord (mkR g0 ts [] (k_timer k)) 0 in
-  let acts := rev (r_acts r) ++ (if m_hup (r_g r) then [(0, GHangupMerge)] else []) in
+  let '(r, done, rest) := replay_run k ev ca rg ts ord in
+  let acts := replay_acts k ev ca rg ts ord in
   let stuck := match rest with i :: _ => Z.of_nat i | [] => -1 end in
   let code := match rest with
               | i :: _ => match nth_error (r_ts r) i with Some th => match t_q th with h :: _ => obs_code h | [] => 0 end | None => -1 end
               | [] => -1 end in
-  match grun g0 acts with
+  match replay_state k ev ca rg ts ord with
   | None => [done; Z.of_nat (length rest); stuck; code; 0]
   | Some g =>
       let s := g_s g in let f := fl s in
